@@ -148,7 +148,7 @@ def same_result(a, b):
 def make_graph(kind):
     import networkx as nx
     G = nx.Graph()
-    edges = [(0, 1), (0, 2), (1, 2), (2, 3), (3, 4), (4, 5), (5, 6), (6, 7), (3, 7), (1, 5)]
+    edges = [(0, 1), (0, 2), (1, 2), (2, 3), (3, 4), (4, 5), (5, 6), (6, 7), (3, 7), (1, 5), (7, 8)]   # node 8: degree 1, so several degree pairs never share an edge
     if kind == 'str':
         edges = [('n%d' % u, 'n%d' % v) for u, v in edges]
     G.add_edges_from(edges)
